@@ -13,6 +13,12 @@ pub const MAX_BLOCK_SIZE: u32 = 128 * 1024;
 pub struct Error { pub k: u8 }
 pub trait Read {
     spec fn avail(&self) -> int;
+    /// std contract of `read`: SOME bytes, at most buf.len() (callers that need an exact count must use read_exact)
+    fn read(&mut self, buf: &mut [u8]) -> (r: Result<usize, Error>)
+        ensures
+            final(buf)@.len() == old(buf)@.len(),
+            r matches Ok(n) ==> n <= old(buf)@.len() && n <= old(self).avail() && final(self).avail() == old(self).avail() - n,
+            r is Err ==> final(self).avail() <= old(self).avail();
     /// ghost mode flag: the reader is a caller-provided chunk of an incremental (slice-to-slice) decode; running out of bytes in the
     /// middle of a block would then turn "need more input" into a hard error, so a block body may only be decoded when it is entirely present
     spec fn incremental() -> bool;
@@ -35,6 +41,8 @@ pub fn first4(s: &[u8]) -> (r: [u8; 4])
 impl<'a> Read for &'a [u8] {
     open spec fn avail(&self) -> int { self@.len() as int }
     open spec fn incremental() -> bool { false }     // in decode_all the slice is the complete input: truncation is an error
+    #[verifier::external_body]
+    fn read(&mut self, buf: &mut [u8]) -> (r: Result<usize, Error>) { unimplemented!() }
     #[verifier::external_body]
     fn read_exact(&mut self, buf: &mut [u8]) -> (r: Result<(), Error>) { unimplemented!() }
 }
